@@ -43,7 +43,8 @@ RULE = ('commutation: full product catalog variant x pre-cache set x index form 
         'reordered, one element, repeated, negative, n zeros-and-ones meant as positions, empty; masks: 101.., 010.., all '
         'True, all False; integer scalars 1 and -1; slices with negative / beyond-the-end / numpy-integer bounds, empty '
         'slice; labels at positions [2,0] and [1]} x containers {list, tuple, int64 / int32 / int8 / uint8 / uint64 / '
-        'float64 array, list of np.int64 / np.uint8; bool array, list of bool, list of np.bool_, tuple of bool; int, '
+        'float64 array, list of np.int64 / np.uint8, astropy Column of int64; bool array, list of bool, list of np.bool_, '
+        'astropy Column of bool, tuple of bool; int, '
         'np.int64 / int32 / int8 / uint8 / uint64, 0-d array, 1-tuple, bool; for get_label(s)/get_id(s): int, numpy '
         'scalars, list, tuple, arrays, list of numpy scalars} is explored with everything cached (both tiers) and with '
         'nothing / only p cached (thorough; quick: one form per container resp. per kind of container); with a single '
@@ -258,9 +259,11 @@ def nsources(cls, variant):
 # space of "index forms", crossed in full with the values.  What an index means is never written down here: it is what
 # numpy does with the very same object on ``np.arange(n)`` (``select``).
 SCALAR_CONTAINERS = ('int', 'np.int64', 'np.int32', 'np.int8', 'np.uint8', 'np.uint64', 'array0d:int64', 'tuple1', 'bool')
+# 'column:*' = astropy.table.Column, an ndarray subclass: what ``tbl['flux'] > 5`` / ``tbl['label']`` of a catalog's own
+# to_table() hands to the user
 SEQ_CONTAINERS = ('list', 'tuple', 'array:int64', 'array:int32', 'array:int8', 'array:uint8', 'array:uint64',
-                  'list:np.int64', 'list:np.uint8', 'array:float64')
-MASK_CONTAINERS = ('array:bool', 'list:bool', 'list:np.bool_', 'tuple:bool')
+                  'list:np.int64', 'list:np.uint8', 'column:int64', 'array:float64')
+MASK_CONTAINERS = ('array:bool', 'list:bool', 'list:np.bool_', 'column:bool', 'tuple:bool')
 # get_label / get_id take "int"; get_labels / get_ids are documented for "list, tuple, or ndarray of int" (and are what
 # get_label / get_id call with a single number)
 LABEL_CONTAINERS = ('int', 'np.int64', 'np.int32', 'np.uint8')
@@ -288,6 +291,10 @@ def _carry(container, values):
         elif container.startswith('array:'):
             t = _np_type(container[6:])
             out = np.array([t(v) for v in values], dtype=t)
+        elif container.startswith('column:'):
+            from astropy.table import Column
+            t = _np_type(container[7:])
+            out = Column(np.array([t(v) for v in values], dtype=t), name='c')
         else:
             raise KeyError(container)
     except (OverflowError, ValueError) as e:
@@ -828,7 +835,7 @@ def run_batch(acc, cls, variant, pre, form, seed):
     n = nsources(cls, variant)
     st, sel = select(form, n)
     if st != 'ok':
-        acc.skip(f'index {form_tag(form)}: {sel}')
+        acc.skip(f'index {form_tag(form)}: {sel[:100]}')
         return
     parent = make(cls, variant, seed)
     do_pre(parent, pre, None, cls, variant, seed)
@@ -894,7 +901,7 @@ def run_same(acc, cls, variant, form, seed):
     public, _ = prop_lists(cls, variant, seed)
     st, sel = select(form, nsources(cls, variant))
     if st != 'ok':
-        acc.skip(f'index {form_tag(form)}: {sel}')
+        acc.skip(f'index {form_tag(form)}: {sel[:100]}')
         return
     for p in public:
         st, exp = expected(cls, variant, seed, p, sel)
